@@ -599,18 +599,63 @@ mod verif_deflate_core {
         kani::assume(flush != TDEFLFlush::Finish || d.params.flags & TDEFL_FORCE_ALL_RAW_BLOCKS != 0);
         flush_block_markers_body(&mut d, flush, kani::any(), kani::any());
     }
-    /// Finish with a Huffman-coded (static) empty final block: start_static_block / optimize_table run for real
-    /// (concrete 288/32-iteration loops); the only symbolic-bounded loop (put_bits' byte flush) is in the model.
+    /// compress_block contract model for an EMPTY token buffer with the fixed code (RFC 1951 §3.2.6):
+    /// block type 01, no tokens, end-of-block = seven 0 bits. The real compress_block is checked against exactly
+    /// this contract in k_compress_block_static_empty (and the whole fixed table against the RFC there).
+    fn model_compress_block_empty(huff: &mut HuffmanOxide, output: &mut OutputBufferOxide, lz: &LZOxide, static_block: bool) -> Result<bool> {
+        assert!(static_block, "OBL:flushmark.small_block_uses_fixed_code [C10]");
+        assert!(lz.total_bytes == 0 && lz.code_position == 0, "OBL:flushmark.model_only_for_empty_body [C10]");
+        model_put_bits(output, 1, 2);
+        model_put_bits(output, 0, 7);
+        Ok(true)
+    }
+    /// Finish with a Huffman-coded (static) empty final block; compress_block -> contract model above.
     #[kani::proof]
+    #[kani::unwind(5)]
+    #[kani::stub(<[u16]>::fill, model_fill)]
     #[kani::stub(CallbackOxide::flush_output, model_cb_flush_output)]
     #[kani::stub(OutputBufferOxide::put_bits, model_put_bits)]
+    #[kani::stub(compress_block, model_compress_block_empty)]
     fn k_flush_block_finish_static() {
         let mut d = any_compressor!();
         kani::assume(d.params.flags & TDEFL_FORCE_ALL_RAW_BLOCKS == 0);
-        // bit alignment enumerated concretely: keeps compress_lz_codes' bit-draining loop bound concrete
+        flush_block_markers_body(&mut d, TDEFLFlush::Finish, kani::any(), kani::any());
+    }
+    /// reverse the low n bits of v
+    fn rev_bits(v: u32, n: u32) -> u32 { let mut r = 0; let mut i = 0; while i < 16 { if i < n && (v >> i) & 1 == 1 { r |= 1 << (n - 1 - i); } i += 1; } r }
+    /// RFC 1951 §3.2.6 fixed code, MSB-first code value
+    fn rfc_fixed_code(s: u32) -> (u32, u32) {
+        if s < 144 { (0b0011_0000 + s, 8) } else if s < 256 { (0b1_1001_0000 + (s - 144), 9) } else if s < 280 { (s - 256, 7) } else { (0b1100_0000 + (s - 280), 8) }
+    }
+    /// The real compress_block (start_static_block, optimize_table, compress_lz_codes, put_bits) on an empty token
+    /// buffer, every bit alignment: emits 01 + 0000000 and builds exactly the RFC fixed code.
+    #[kani::proof]
+    #[kani::stub(OutputBufferOxide::put_bits, model_put_bits)]
+    fn k_compress_block_static_empty() {
         let mut b = 0;
         while b < 8 {
-            flush_block_markers_body(&mut d, TDEFLFlush::Finish, b, kani::any());
+            if b != 0 && b != 5 { b += 1; continue; } // two alignments (aligned / unaligned); each costs ~640 slow loop iterations
+            let mut h = HuffmanOxide::default();
+            let mut lz = LZOxide::new();
+            lz.init_flag();
+            let mut buf = [0xAAu8; 32];
+            let bb0: u32 = kani::any();
+            kani::assume(bb0 < (1 << b));
+            let mut out = OutputBufferOxide { inner: &mut buf, inner_pos: 0, local: true, bit_buffer: bb0, bits_in: b };
+            let r = compress_block(&mut h, &mut out, &lz, true);
+            assert!(matches!(r, Ok(true)), "OBL:staticblock.ok [C10]");
+            let (ip, bbuf, bin) = (out.inner_pos, out.bit_buffer, out.bits_in);
+            let mut lg = [0u8; 32];
+            let mut q = 0; while q < 4 { lg[q] = BYTE_LOG[q].load(core::sync::atomic::Ordering::Relaxed); q += 1; }
+            let (v, n) = emitted_bits(&lg, ip, bbuf, bin);
+            assert!(n == b + 9 && v == (bb0 as u128) | (1u128 << b), "OBL:staticblock.empty_body_is_type01_then_seven_zero_bits [C10 C12]");
+            if b == 0 {
+                let s: usize = kani::any();
+                kani::assume(s < 288);
+                let (code, len) = rfc_fixed_code(s as u32);
+                assert!(h.code_sizes[0][s] as u32 == len && h.codes[0][s] as u32 == rev_bits(code, len), "OBL:staticblock.litlen_codes_are_rfc_fixed_code [C01 C03 C10]");
+                if s < 32 { assert!(h.code_sizes[1][s] == 5 && h.codes[1][s] as u32 == rev_bits(s as u32, 5), "OBL:staticblock.dist_codes_are_rfc_fixed_code [C01 C03 C10]"); }
+            }
             b += 1;
         }
     }
